@@ -283,7 +283,7 @@ def mutate(obj, kind: str, rng) -> bool:
     return True
 
 
-TRANSFORMS = ["platform", "port_nr", "protocol_nr", "resequence", "sort", "reverse", "group", "ungroup", "type", "type-switch"]
+TRANSFORMS = ["platform", "platform-same", "port_nr", "protocol_nr", "resequence", "sort", "reverse", "group", "ungroup", "type", "type-switch"]
 
 
 def _ident(obj):
@@ -297,6 +297,10 @@ def identity_check(ctx, case, obj, kind, rng) -> None:
     before_self = _ident(obj)
     items = _flat(obj.items) if cls in ("Acl", "AceGroup") else (list(obj.items) if has_items else [])
     before_items = [(_ident(i), i.line, type(i).__name__) for i in items]
+    # the blocks themselves (AceGroup objects that stand in the container) are objects with identifier and note too
+    blocks_before = [(_ident(i), i.line.split("\n")[0]) for i in obj.items if type(i).__name__ == "AceGroup"] \
+        if cls in ("Acl", "AceGroup") else []
+    platform_before = getattr(obj, "platform", None)
     multi = any(type(i).__name__ == "Ace" and any(p.operator in ("eq", "neq") and len(p.items) > 1 for p in (i.srcport, i.dstport))
                 for i in items)
     try:
@@ -305,6 +309,8 @@ def identity_check(ctx, case, obj, kind, rng) -> None:
             if multi and target == "nxos":
                 return
             obj.platform = target
+        elif kind == "platform-same":
+            obj.platform = rng.choice({"ios": ["ios", "cisco_ios"], "nxos": ["nxos", "cnx", "cisco_nxos"]}.get(obj.platform, [obj.platform]))
         elif kind == "port_nr":
             obj.port_nr = not obj.port_nr
         elif kind == "protocol_nr":
@@ -337,6 +343,21 @@ def identity_check(ctx, case, obj, kind, rng) -> None:
     if _ident(obj) != before_self:
         ctx.violation(case, f"in-place transformation {kind} changed the uuid or note of the {cls}",
                       {"before": before_self[0], "after": obj.uuid})
+    if blocks_before and kind not in ("group", "ungroup"):
+        blocks_after = [_ident(i) for i in obj.items if type(i).__name__ == "AceGroup"]
+        want_blocks = [b[0] for b in blocks_before]
+        same = sorted(blocks_after) == sorted(want_blocks) if kind in ("sort", "reverse") else blocks_after == want_blocks
+        ctx.count("block_identities_judged")
+        if not same:
+            known = None
+            if cls == "Acl" and getattr(obj, "group_by", "") and (
+                    kind in ("port_nr", "protocol_nr", "type", "type-switch")
+                    or (kind in ("platform", "platform-same") and obj.platform == "nxos")):
+                # K4: these setters rebuild the ACL through its items setter, which regroups and recreates the blocks
+                known = "group-by-rebuild-block-sequence"
+            ctx.violation(case, f"in-place transformation {kind} replaced the blocks (AceGroup objects) of the {cls}: new uuid / note",
+                          {"blocks": [b[1] for b in blocks_before][:4], "group_by": getattr(obj, "group_by", None),
+                           "platform": [platform_before, getattr(obj, "platform", None)]}, known=known)
     after = _flat(obj.items) if cls in ("Acl", "AceGroup") else (list(obj.items) if has_items else [])
     if kind in ("sort", "reverse"):
         if sorted(i[0][0] for i in before_items) != sorted(i.uuid for i in after) or \
@@ -412,6 +433,9 @@ def execute(ctx, case: dict) -> None:
         if cls in ("Acl", "AceGroup", "AddrGroup"):
             for n, item in enumerate(_flat(obj.items) if cls != "AddrGroup" else obj.items):
                 item.note = {"n": n}
+            if cls != "AddrGroup":
+                for n, item in enumerate(i for i in obj.items if type(i).__name__ == "AceGroup"):
+                    item.note = {"block": n}
         for kind in case["transforms"]:
             if kind in ("sort", "reverse", "group", "ungroup", "resequence") and cls not in ("Acl", "AceGroup", "AddrGroup"):
                 continue
